@@ -182,9 +182,28 @@ def gen(rng: Rng, tier, i):
            "opt_extra": {k: _gen_opt_extra(rng.fork(("ox", k)), opt_kind) for k in keys},
            "constraints": rng.pick([{}, {"probe": {"orthogonalize_probe": False}},
                                     {"object": {"tv_weight_xy": 1e-3}},
-                                    {"probe": {"center_probe": True}, "object": {"positivity": True}}]),
+                                    {"probe": {"center_probe": True}, "object": {"positivity": True}}])
+           if rng.chance(0.75) else rng.fork("cons2").pick([
+               {"dataset": {"descan_shifts_constant": True}}, {"dataset": {"descan_tv_weight": 0.1}},
+               {"dataset": {"center_scan_positions": True}}, {"probe": {"tv_weight": 0.1}},
+               {"object": {"surface_zero_weight": 0.1}}, {"object": {"tv_weight_xy": 1.0, "tv_weight_z": 1.0}},
+               {"object": {"identical_slices": True}}]),
+           # (overridden below when the dataset model is optimised)
+           # validation split made by Ptychography.preprocess / attributes (deterministic grid mode)
+           "val_ratio": rng.fork("val").pick([0.0, 0.0, 0.25, 0.5, 0.2]),
            "snapshots": rng.pick([None, None, 1, 2]), "rng": rng.randrange(10 ** 6),
-           "loss": rng.pick(["l2_amplitude", "l2_amplitude", "l1_amplitude", "l2_intensity"])}
+           "loss": rng.pick(["l2_amplitude", "l2_amplitude", "l1_amplitude", "l2_intensity"])
+           if rng.chance(0.8) else rng.fork("loss2").pick(["poisson", "l1_intensity"]),
+           "autograd": rng.fork("autograd").pick([True, True, False])}
+    dc = rng.fork("dataset_cons")
+    if "dataset" in keys and dc.chance(0.4):
+        # constraints of the dataset model matter when it is optimised: a parameter that never
+        # receives a gradient (constant descan), regularised descan, re-centred positions
+        cfg["constraints"] = dc.pick([{"dataset": {"descan_shifts_constant": True}},
+                                      {"dataset": {"descan_tv_weight": 0.1}},
+                                      {"dataset": {"center_scan_positions": True}},
+                                      {"dataset": {"descan_shifts_constant": True},
+                                       "object": {"tv_weight_xy": 1e-3}}])
     ops = [{"op": "recon", "n": rng.pick([0, 1, 2, 3, 4])}]
     if rng.fork("long").chance(0.04):      # something that only matters after many iterations
         ops[0]["n"] = rng.fork("long").pick([12, 30, 60, 110])
@@ -223,8 +242,12 @@ def _opt_params(cfg):
 
 
 def _build(cfg):
-    return tinyptycho.make_ptycho(cfg["data_seed"], obj_type=cfg["obj_type"], num_slices=cfg["slices"],
-                                  n_modes=cfg["modes"], rng=cfg["rng"], scan=tuple(cfg["scan"]))
+    pt = tinyptycho.make_ptycho(cfg["data_seed"], obj_type=cfg["obj_type"], num_slices=cfg["slices"],
+                                n_modes=cfg["modes"], rng=cfg["rng"], scan=tuple(cfg["scan"]))
+    if cfg.get("val_ratio"):
+        pt.val_ratio = cfg["val_ratio"]      # what preprocess(val_ratio=...) stores
+        pt.val_mode = "grid"                 # deterministic split (a random one is re-seeded on load)
+    return pt
 
 
 def _deep_eq(a, b):
@@ -248,6 +271,8 @@ def _deep_eq(a, b):
 
 def _state(pt):
     return {"num_iters": int(pt.num_iters), "iter_losses": np.asarray(pt.iter_losses, float).copy(),
+            "val_losses": np.asarray(pt.val_iter_losses, float).copy(),
+            "val_split": (float(pt.val_ratio), str(pt.val_mode)),
             "iter_lrs": {k: np.asarray(v, float).copy() for k, v in pt.iter_lrs.items()},
             "constraints": copy.deepcopy(pt.constraints), "obj": np.array(pt.obj, copy=True),
             "probe": np.array(pt.probe, copy=True)}
@@ -259,6 +284,10 @@ def _cmp_exact(old, new):
         out.append(f"num_iters {old['num_iters']}->{new['num_iters']}")
     if not np.array_equal(old["iter_losses"], new["iter_losses"]):
         out.append("iter_losses")
+    if not np.array_equal(old["val_losses"], new["val_losses"]):
+        out.append("val_iter_losses")
+    if old["val_split"] != new["val_split"]:
+        out.append(f"val_split {old['val_split']}->{new['val_split']}")
     if set(old["iter_lrs"]) != set(new["iter_lrs"]) or any(
             not np.array_equal(old["iter_lrs"][k], new["iter_lrs"][k]) for k in old["iter_lrs"]
             if k in new["iter_lrs"]):
@@ -329,7 +358,7 @@ def _noise_scale(plan, upto):
     first = True
     for j, op in enumerate(plan["ops"][: upto + 1]):
         if op["op"] == "recon":
-            kw = {"num_iters": op["n"], "loss_type": cfg["loss"]}
+            kw = {"num_iters": op["n"], "loss_type": cfg["loss"], "autograd": cfg.get("autograd", True)}
             if cfg["snapshots"]:
                 kw["store_snapshots_every"] = cfg["snapshots"]
             for X in twins:
@@ -345,10 +374,12 @@ def _noise_scale(plan, upto):
                 if e:
                     _perturb(X, e)
     su = _state(twins[0])
-    out = {"loss": 0.0, "lr": 0.0, "obj": 0.0, "probe": 0.0}
+    out = {"loss": 0.0, "lr": 0.0, "obj": 0.0, "probe": 0.0, "val_loss": 0.0}
     for X in twins[1:]:
         sx = _state(X)
         out["loss"] = max(out["loss"], _rel(sx["iter_losses"], su["iter_losses"]))
+        if su["val_losses"].size and su["val_losses"].shape == sx["val_losses"].shape:
+            out["val_loss"] = max(out["val_loss"], _rel(sx["val_losses"], su["val_losses"]))
         for key in su["iter_lrs"]:
             if key in sx["iter_lrs"]:
                 out["lr"] = max(out["lr"], _rel(sx["iter_lrs"][key], su["iter_lrs"][key]))
@@ -384,6 +415,14 @@ def run(plan):
                 bump(probes, "opt_extra_" + a)
     if plan["ops"][0].get("n", 0) >= 12:
         bump(probes, "long_first_segment")
+    if not cfg.get("autograd", True):
+        bump(probes, "analytic_gradients")
+    if cfg.get("val_ratio"):
+        bump(probes, "validation_split")
+    if "dataset" in (cfg.get("constraints") or {}):
+        bump(probes, "dataset_constraints")
+    if cfg["loss"] in ("poisson", "l1_intensity"):
+        bump(probes, "loss_" + cfg["loss"])
     if cfg["obj_type"] != "complex":
         bump(probes, "obj_" + cfg["obj_type"])
     if cfg["modes"] == 2:
@@ -414,7 +453,7 @@ def run(plan):
             kinds.append(k)
             try:
                 if k == "recon":
-                    kw = {"num_iters": op["n"], "loss_type": cfg["loss"]}
+                    kw = {"num_iters": op["n"], "loss_type": cfg["loss"], "autograd": cfg.get("autograd", True)}
                     if cfg["snapshots"]:
                         kw["store_snapshots_every"] = cfg["snapshots"]
                     restart = first or op.get("reset")
@@ -454,6 +493,13 @@ def run(plan):
                         e = _rel(sr["iter_losses"], su["iter_losses"])
                         if e > RTOL:
                             soft["loss"] = e
+                        if su["val_losses"].shape != sr["val_losses"].shape:
+                            bad.append(f"validation losses recorded: {len(su['val_losses'])} vs "
+                                       f"{len(sr['val_losses'])}")
+                        elif su["val_losses"].size and _rel(sr["val_losses"], su["val_losses"]) > RTOL:
+                            soft["val_loss"] = _rel(sr["val_losses"], su["val_losses"])
+                        if su["val_split"] != sr["val_split"]:
+                            bad.append(f"validation split {su['val_split']} vs {sr['val_split']}")
                         if set(su["iter_lrs"]) != set(sr["iter_lrs"]):
                             bad.append(f"lr keys {sorted(su['iter_lrs'])} vs {sorted(sr['iter_lrs'])}")
                         else:
@@ -573,7 +619,7 @@ def run(plan):
                         # (a) iterate the ORIGINAL (it is dropped afterwards): the clone must not
                         #     move; (b) iterate a clone of the clone: the clone must not move either
                         before_new = _state(new)
-                        orig.reconstruct(num_iters=1, loss_type=cfg["loss"])
+                        orig.reconstruct(num_iters=1, loss_type=cfg["loss"], autograd=cfg.get("autograd", True))
                         d1 = _cmp_exact(before_new, _state(new))
                         if d1:
                             viol("clone_shares_state", f"{tag}: iterating the original changed its "
@@ -584,7 +630,7 @@ def run(plan):
                                                        "probe": {"tv_weight": 0.456}}
                         except Exception:
                             pass
-                        probe_clone.reconstruct(num_iters=1, loss_type=cfg["loss"])
+                        probe_clone.reconstruct(num_iters=1, loss_type=cfg["loss"], autograd=cfg.get("autograd", True))
                         d2 = _cmp_exact(before_new, _state(new))
                         if d2 and not d1:
                             viol("clone_shares_state", f"{tag}: iterating a clone changed the object "
